@@ -598,6 +598,11 @@ func (p *G1Affine) setBytes(buf []byte, subGroupCheck bool) (int, error) {
 		if subGroupCheck && !p.IsInSubGroup() {
 			return 0, errors.New("invalid point: subgroup check failed")
 		}
+		// the subgroup check implies the on-curve check; when it is disabled the point must
+		// still be on the curve
+		if !subGroupCheck && !p.IsOnCurve() {
+			return 0, errors.New("invalid point: not on curve")
+		}
 
 		return SizeOfG1AffineUncompressed, nil
 	}
